@@ -95,7 +95,7 @@ def exhaustive_configs(tier):
         add("XLg", False, Sizes=[2, 2, 2], MaxMapped=1, Orders=["none", "sub"], Joins=B2, Aggs=["all"], Methods=M2)
         add("XLx", False, Sizes=[2, 3], MaxMapped=1, XVar=True, Orders=O3, Joins=B2)
         add("XH2", False, Sizes=[2, 2, 2], Mode="heat", MaxMapped=1, Orders=O3, Aggs=["auto"])
-        add("XG2", False, Sizes=[2, 2, 2], Mode="hist", MaxMapped=2, Orders=["none", "sub"], Dens=B2, Bins=BINS)
+        add("XG2", False, Sizes=[2, 2, 2], Mode="hist", MaxMapped=2, Orders=["none", "sub"], Dens=B2, Bins=["auto", "n4", "e3"])
     return L
 
 
